@@ -216,7 +216,12 @@ def run(ctx, F):
                                                        (bool(rets) and all(any(r == a or show(r)[:80] == show(a)[:80] for a in xs) for r in rets) and any("forward_object(" in show(r) for r in rets)))
             else:  # forwarded: MarkCompact's second trace enqueues the object and returns its forwarding address
                 okx = show(x) == "arg3" and all("get_header_forwarding_pointer" in show(r) for r in rets)
-            ok = won and okx and bool(rets)
+            # and conversely: once the race is won, every path to a return passes the enqueue (nothing that was marked / forwarded is left unscanned)
+            # (Immix's opportunistic copy has a second test after the forwarding race: an object that is already marked was scanned before)
+            srx, sval = (r"^ImmixSpace::is_marked\(arg1, arg3\)$", False) if q.endswith("trace_object_with_opportunistic_copy") else (grx, gval)
+            edges = branch_edges(f, srx, sval)
+            allq = bool(edges) and all(f.cfg.must_pass([c.bb], start=s) for _, s in edges)
+            ok = won and okx and bool(rets) and allq
             found = "enqueue(%s) under %s" % (show(x)[:50], [g[:60] for g in guard_strs(f, c.bb)][:3])
         ctx.judge(ok, "C01.enqueue-on-first-visit", "%s enqueues the object exactly when it wins the race and returns the surviving reference" % short(q),
                   expected="enqueue under %s == %s; enqueued reference = %s" % (grx[:50], gval, {"same": "the object itself (returned)", "copy": "the new copy (returned)", "forwarded": "the object; returns its forwarding address"}[what]),
